@@ -37,7 +37,8 @@ func NewWithOptions(opts *Options) *MemFS {
 
 	idm := opts.Idm
 	if idm == nil {
-		idm = memidm.New()
+		// the default identity manager emulates the same OS as the file system.
+		idm = memidm.NewWithOptions(&memidm.Options{OSType: opts.OSType})
 	}
 
 	features := avfs.FeatHardlink | avfs.FeatSubFS | avfs.FeatSymlink | idm.Features() | avfs.BuildFeatures()
